@@ -289,6 +289,7 @@ def worker(jobfile):
     t0 = time.time()
     res = {"job": job, "error": None}
     try:
+        os.environ["VF_TIER"] = job.get("tier", "quick")       # strategies may scale rare expensive shapes with the tier
         mod = importlib.import_module(f"vf.props.{job['prop'].lower()}")
         if job["part"] == "__replays__":
             res.update(replay_files(job["prop"], mod, job["files"]))
